@@ -402,8 +402,101 @@ def g8(repo, res):
                         "invalid names that begin like a valid key are accepted and then silently dropped", (fuzzy[0] if fuzzy else fn).lineno))
 
 
+def g12(repo, res):
+    """G12 family order: get_style lets later families override earlier ones, and get_families lists them in the order of its local
+    imports (locals() iteration order).  A generic family (a base class, imported under an alias: BaseMagnet as Magnet) must therefore
+    be imported before every imported subclass of it, or the generic defaults override the specific ones."""
+    st = repo.mod("magpylib._src.style")
+    fn = st.funcs.get("get_families")
+    res.require(fn is not None, "anchor vanished: style.get_families")
+    order = []
+    for s_ in fn.body:
+        if isinstance(s_, ast.ImportFrom):
+            for a in s_.names:
+                order.append((a.asname or a.name, a.name, s_.module, s_))
+    res.require(len(order) >= 10 and any(isinstance(x, ast.Call) and getattr(x.func, "id", "") == "locals" for x in ast.walk(fn)),
+                "anchor vanished: get_families no longer derives the families from its local imports")
+    pos = {real: i for i, (alias, real, mod, s_) in enumerate(order)}
+    alias_of = {real: alias for alias, real, mod, s_ in order}
+    # only families that have a defaults section matter (getattr(default_style, family, {}) is empty otherwise)
+    ds = repo.classes.get("DisplayStyle")
+    res.require(ds is not None and len(ds.getters) >= 6, "anchor vanished: DisplayStyle property tree")
+    styled = set(ds.getters)
+    n = 0
+    for alias, real, mod, s_ in order:
+        cl = repo.cls_by_key.get((mod, real))
+        if cl is None or alias.lower() not in styled:
+            continue
+        for b in repo.mro(cl)[1:]:
+            if b.name in pos and alias_of[b.name].lower() in styled:
+                n += 1
+                ok = pos[b.name] < pos[real]
+                res.ob(f"G12:{b.name}<{real}", ok, {"rule": "G12", "generic": b.name, "specific": real, "positions": [pos[b.name], pos[real]]})
+                if not ok:
+                    res.add(Finding("G12", st.rel, "get_families", s_, f"{real} is listed before its generic family {b.name}: get_style applies the families in this order, "
+                                    f"so the defaults of the generic family override those of `{alias.lower()}`", s_.lineno))
+    res.require(n >= 2, f"G12: only {n} generic/specific pairs among the styled families (2 confirmed by hand: triangle, triangularmesh under magnet)")
+    # the merge loop applies the families in list order with plain dict.update (later wins)
+    gs = st.funcs.get("get_style")
+    loops = [l for l in ast.walk(gs) if isinstance(l, ast.For) and isinstance(l.iter, ast.Name) and "famil" in l.iter.id]
+    res.require(loops, "anchor vanished: family merge loop in get_style")
+
+
+def g13(repo, res):
+    """G13 lazy style materialisation: constructor style arguments wait in `_style_kwargs` until the `style` getter applies them.
+    Any other code of the class that reads `self._style` directly sees a style without them (and they are applied later, on top of
+    newer assignments); it must go through the getter or handle `_style_kwargs` itself."""
+    geo = repo.cls("BaseGeo")
+    res.require("style" in geo.getters and any("_style_kwargs" in ast.unparse(x) for x in ast.walk(geo.getters["style"])),
+                "anchor vanished: lazy `_style_kwargs` handling in the BaseGeo.style getter")
+    n = 0
+    for c in [geo] + repo.subclasses("BaseGeo"):
+        fns = [(k, v, "") for k, v in c.methods.items()] + [(k, v, " (setter)") for k, v in c.setters.items()]
+        for name, fn, kind in fns:
+            reads = []
+            for x in ast.walk(fn):
+                if isinstance(x, ast.Attribute) and x.attr == "_style" and isinstance(x.ctx, ast.Load) and isinstance(x.value, ast.Name) and x.value.id == "self":
+                    reads.append(x)
+                if isinstance(x, ast.Call) and getattr(x.func, "id", "") == "getattr" and len(x.args) >= 2 and isinstance(x.args[1], ast.Constant) \
+                        and x.args[1].value == "_style" and ast.unparse(x.args[0]) == "self":
+                    reads.append(x)
+            if not reads:
+                continue
+            n += 1
+            handles = any("_style_kwargs" in ast.unparse(x) for x in ast.walk(fn) if isinstance(x, (ast.Attribute, ast.Constant)))
+            res.ob(f"G13:{c.name}.{name}", handles, {"rule": "G13", "function": f"{c.name}.{name}{kind}", "direct_reads": [norm(r) for r in reads], "handles_pending_kwargs": handles})
+            if not handles:
+                res.add(Finding("G13", c.mod.rel, f"{c.name}.{name}{kind}", reads[0], "reads `self._style` directly, bypassing the getter that applies the pending constructor "
+                                "style arguments: they are applied later, on top of whatever is assigned now", reads[0].lineno))
+    res.analysed["G13_direct_readers"] = n
+
+
+SHALLOW_IDIOMS = ("__dict__.update(self.__dict__)", "self.__dict__.copy()", "dict(self.__dict__)", "copy.copy(self)", "copy(self)")
+
+
+def g14(repo, res, rule="G14"):
+    """G14 a style/property tree is copied deeply: MagicProperties.copy() returns deepcopy(self) or an object rebuilt from as_dict();
+    recognised shallow idioms (sharing the nested property objects) are a violation, any other form is reported undecided"""
+    du = repo.mod("magpylib._src.defaults.defaults_utility")
+    cl = repo.cls_by_key.get((du.name, "MagicProperties"))
+    res.require(cl is not None and "copy" in cl.methods, "anchor vanished: MagicProperties.copy")
+    fn = cl.methods["copy"]
+    txt = " ".join(ast.unparse(fn).split())
+    deep = any(isinstance(c, ast.Call) and getattr(c.func, "id", getattr(c.func, "attr", "")) == "deepcopy" and c.args and ast.unparse(c.args[0]) == "self" for c in ast.walk(fn)) \
+        or "self.as_dict()" in txt
+    shallow = [i for i in SHALLOW_IDIOMS if i in txt and not (i == "copy(self)" and "deepcopy(self)" in txt and "copy.copy(self)" not in txt)]
+    ok = deep and not shallow
+    res.ob(f"{rule}:MagicProperties.copy is deep", ok or not shallow, {"rule": rule, "deep_construct": deep, "shallow_idioms": shallow})
+    if shallow:
+        res.add(Finding(rule, du.rel, "MagicProperties.copy", fn, f"shallow copy ({shallow[0]}): the copy shares its nested property objects with the original, so an "
+                        "attribute assignment on a nested leaf of one shows up in the other (temporary display styles leak into the objects)", fn.lineno))
+    elif not deep:
+        res.undecided.append(f"{rule}: MagicProperties.copy uses neither deepcopy(self) nor as_dict(); depth of the copy not decided")
+
+
 def run(repo, res, tier):
-    res.rules = ["G1 reset/DEFAULTS vs property tree", "G2 alias-free properties", "G3 leaf setters validate", "G4 no caller dict mutated/captured", "G5 precedence dataflow in get_style", "G6 no memoisation on the style path", "G7 temporary style removed on all exits", "G8 exact validation of style names", "G5b None-filters not truthiness", "REC-FWD style keywords forwarded through recursion", "G4b style setter adopts no foreign style object", "G10 no preset values in style constructors"]
+    res.rules = ["G1 reset/DEFAULTS vs property tree", "G2 alias-free properties", "G3 leaf setters validate", "G4 no caller dict mutated/captured", "G5 precedence dataflow in get_style", "G6 no memoisation on the style path", "G7 temporary style removed on all exits", "G8 exact validation of style names", "G5b None-filters not truthiness", "REC-FWD style keywords forwarded through recursion", "G4b style setter adopts no foreign style object", "G10 no preset values in style constructors",
+                 "G12 generic families before specific ones", "G13 lazy style kwargs not bypassed", "G14 style copies are deep"]
     g1(repo, res)
     g2_g3(repo, res)
     import origin_rules
@@ -413,6 +506,9 @@ def run(repo, res, tier):
     g8(repo, res)
     g9(repo, res)
     g10(repo, res)
+    g12(repo, res)
+    g13(repo, res)
+    g14(repo, res)
     res.assumptions += ["property tree links are the validate_property_class(val, name, Class, self) calls in the setters",
                         "NumPy/stdlib copy-view table of origdom.py (dict.copy / dict display / {**d} are copies one level deep)"]
     return {}
